@@ -403,7 +403,9 @@ namespace pika::threads::detail {
         bool set_interruption_enabled(bool enable) noexcept
         {
             std::lock_guard<pika::detail::spinlock> l(spinlock_pool::spinlock_for(this));
+            PIKA_VERIF_PRE("ip.enable", this);
             std::swap(enabled_interrupt_, enable);
+            PIKA_VERIF_POST("ip.enable", this, enabled_interrupt_ ? 1 : 0, enable ? 1 : 0);
             return enable;
         }
 
@@ -412,12 +414,15 @@ namespace pika::threads::detail {
             std::unique_lock<pika::detail::spinlock> l(spinlock_pool::spinlock_for(this));
             if (flag && !enabled_interrupt_)
             {
+                PIKA_VERIF_POST("ip.refuse", this, 0, 0);
                 l.unlock();
                 PIKA_THROW_EXCEPTION(pika::error::thread_not_interruptable,
                     "thread_data::interrupt", "interrupts are disabled for this thread");
                 return;
             }
+            PIKA_VERIF_PRE("ip.req", this);
             requested_interrupt_ = flag;
+            PIKA_VERIF_POST("ip.req", this, flag ? 1 : 0, 0);
         }
 
         bool interruption_point(bool throw_on_interrupt = true);
@@ -598,6 +603,14 @@ namespace pika::threads::detail {
     /// The function \a get_self_id returns the pika thread id of the current
     /// thread (or zero if the current thread is not a pika thread).
     PIKA_EXPORT thread_id_type get_self_id();
+#if defined(PIKA_VERIF_HOOKS)
+    // thread_data of the calling pika task (0 on a plain OS thread), for the verification log
+    inline std::uint64_t verif_self()
+    {
+        return reinterpret_cast<std::uint64_t>(
+            static_cast<void const*>(get_thread_id_data(get_self_id())));
+    }
+#endif
 
     /// The function \a get_parent_id returns the pika thread id of the
     /// current thread's parent (or zero if the current thread is not a
